@@ -60,25 +60,25 @@ func init() {
 		hw.Opts{Groups: groups("c08"), MinSteps: 4, MaxSteps: 50, SmallPrune: true, LargeEvery: 60,
 			WMint: 40, WDeliver: 15, WClean: 4, WSave: 2, WReload: 3, WAdversarial: 30, WMark: 3, WUnmark: 1})
 
-	hprop("C09", histRule+"after every event HashHeight, CheckHeader, GetHeader and PreviousHash of every header ever minted, and tape-chosen GetHeaders ranges, are compared with the reference tree (height, best-chain flag = ancestor-or-equal of the reported tip, predecessor); non-trivial = at least one reorganisation",
+	hprop("C09", histRule+"headers are also marked invalid and unmarked at tape-chosen points; after every event HashHeight, CheckHeader, GetHeader and PreviousHash of every header ever minted, and tape-chosen GetHeaders ranges, are compared with the reference tree (height, best-chain flag = ancestor-or-equal of the reported tip, predecessor); non-trivial = at least one reorganisation",
 		25, 900, nil, nil, "exploration",
 		hw.Opts{Groups: groups("c09"), MinSteps: 4, MaxSteps: 60, SmallPrune: true, LargeEvery: 60,
-			WMint: 60, WDeliver: 20, WClean: 8, WSave: 2, WReload: 5, WQuery: 8})
+			WMint: 60, WDeliver: 20, WClean: 8, WSave: 2, WReload: 5, WQuery: 8, WMark: 3, WUnmark: 1})
 
-	hprop("C10", histRule+"Clean is inserted at tape-chosen positions, 1-3 times back to back; a canonical rendering of every observable before and after must be identical, and the run continues under the tip/ancestry oracle so that side branches must still extend and overtake; one long-chain run in four uses the real prune depth with the chain grown to just below height 10000 and a heavier tip plus a lighter fork that overtakes a few heights later (the best chain passes the automatic-clean height by reorganisation); non-trivial = every run with at least one Clean",
+	hprop("C10", histRule+"headers are also marked invalid and unmarked at tape-chosen points; Clean is inserted at tape-chosen positions, 1-3 times back to back; a canonical rendering of every observable before and after must be identical, and the run continues under the tip/ancestry oracle so that side branches must still extend and overtake; one long-chain run in four uses the real prune depth with the chain grown to just below height 10000 and a heavier tip plus a lighter fork that overtakes a few heights later (the best chain passes the automatic-clean height by reorganisation); non-trivial = every run with at least one Clean",
 		25, 900, []string{"boundary-mode", "boundary-straddle-attempt", "reorg-skipped-automatic-clean-height", "clean-with>=2-side-branches", "prune-dropped-best-chain-history"}, nil, "exploration",
 		hw.Opts{Groups: groups("c10", "c01"), MinSteps: 4, MaxSteps: 60, SmallPrune: true, LargeEvery: 60,
-			WMint: 60, WDeliver: 20, WClean: 14, WSave: 2, WReload: 3})
+			WMint: 60, WDeliver: 20, WClean: 14, WSave: 2, WReload: 3, WMark: 3, WUnmark: 1})
 
 	hprop("C11", histRule+"headers are also marked invalid and unmarked at tape-chosen points (a saved branch can shrink between two saves); at tape-chosen points the repository is saved and a new one loaded from the same disk (up to several generations); tip, best chain by height and height/best-chain flag of every header within the retained depth must be equal; then original and loaded repository (twin run) receive the same continuation and must give the same verdicts and observables; non-trivial = every run with at least one reload",
 		25, 900, []string{"twin-started", "twin-submission", "reload-with-side-branches"}, nil, "exploration",
 		hw.Opts{Groups: groups("c11", "c01"), MinSteps: 4, MaxSteps: 60, SmallPrune: true, LargeEvery: 60, Twin: true,
 			WMint: 60, WDeliver: 20, WClean: 5, WSave: 3, WReload: 12, WMark: 4, WUnmark: 1})
 
-	hprop("C12", histRule+"for each sampled Clean and Save EVERY prefix of the Write/Remove calls it issued (including empty and full) is turned into a disk image that a fresh repository loads; the load must succeed without panic and report a linked chain of accepted headers with work >= the tip at the last completed Save, and the loaded repository must accept an extension; non-trivial = every run with at least one crash enumeration; crash points are counted under faults_fired",
+	hprop("C12", histRule+"headers are also marked invalid and unmarked at tape-chosen points (the work floor follows the reference tip down when a marking lowers it); for each sampled Clean and Save EVERY prefix of the Write/Remove calls it issued (including empty and full) is turned into a disk image that a fresh repository loads; the load must succeed without panic and report a linked chain of accepted headers with work >= the tip at the last completed Save, and the loaded repository must accept an extension; non-trivial = every run with at least one crash enumeration; crash points are counted under faults_fired",
 		25, 900, []string{"crash-op-with>=4-mutations", "crash-with-side-branches"}, []string{"crash-point"}, "fault_enumeration",
 		hw.Opts{Groups: groups("c12"), MinSteps: 4, MaxSteps: 40, SmallPrune: true, LargeEvery: 60,
-			WMint: 60, WDeliver: 20, WClean: 3, WSave: 2, WReload: 3, WCrash: 10})
+			WMint: 60, WDeliver: 20, WClean: 3, WSave: 2, WReload: 3, WCrash: 10, WMark: 3, WUnmark: 1})
 
 	hprop("C17", histRule+"headers are marked invalid (best chain at any depth, side branch, first of branch, not yet seen, already marked, unknown hash) and unmarked at tape-chosen points, with Save/restart in between; after every event the reported tip must be the heaviest chain not built on a marked header, marked headers and descendants must not be flagged best-chain, resubmission must be refused as marked, and after unmarking the header must be accepted again; non-trivial = every run with at least one marking",
 		25, 900, []string{"mark:best-chain", "mark:side-branch", "mark:first-of-branch", "mark:not-yet-seen", "mark:already-marked", "mark:unknown-hash", "mark-forced-fallback", "unmark", "accepted-again-after-unmark", "refusal:marked-invalid"}, nil, "exploration",
